@@ -441,7 +441,7 @@ prop("C05",
      driver=lambda tier, seed, gen, out: ["codec", "-mode", "robust", "-out", out, "-seed", str(seed), "-n",
                                           _t(tier, "3000", "1500000")],
      required=["out:ok", "out:err", "cls:json", "cls:notjson", "origin:slot", "origin:prefix", "origin:random",
-               "origin:deep", "origin:edit", "origin:tiny"] + ["home:%s:ok" % e for e in
+               "origin:deep", "origin:edit", "origin:tiny", "origin:after-removal", "origin:large"] + ["home:%s:ok" % e for e in
                                                 ["UnmarshalDocument", "UnmarshalResource", "UnmarshalPartialResource",
                                                  "UnmarshalCollection", "UnmarshalIdentifier", "UnmarshalIdentifiers",
                                                  "NewRequestPOST", "NewRequestPATCH"]] + ["entry:" + e for e in
